@@ -524,6 +524,47 @@ pub fn exec(line: &str, _model: &mut Model) -> Option<Exec> {
             if r.is_none() { e.oracle_fail = Some("formatting a creation timestamp panics".into()); }
             Some(e)
         }
+        "time.mt" => {
+            // several threads format different times at once: whatever string() remembers between calls must not
+            // leak from one caller to another. Answer = what every thread saw (one string per time when all is well).
+            let xs: Vec<u64> = t[1..].iter().map(|x| x.parse().ok()).collect::<Option<Vec<u64>>>()?;
+            let seen: Vec<Vec<String>> = std::thread::scope(|sc| {
+                let hs: Vec<_> = xs.iter().map(|&x| sc.spawn(move || {
+                    let mut v: Vec<String> = vec![];
+                    for _ in 0..4000 { let s = x.string(); if !v.contains(&s) { v.push(s); } }
+                    v })).collect();
+                hs.into_iter().map(|h| h.join().unwrap_or_default()).collect() });
+            let mut e = Exec::new(format!("ok{}", seen.iter().map(|v| format!(" {}", v.iter().map(|s| hex(s.as_bytes())).collect::<Vec<_>>().join("|"))).collect::<String>()));
+            for (x, v) in xs.iter().zip(&seen) {
+                if *x <= 252_455_615_999_999 && (v.len() != 1 || v[0] != expected_rfc3339(*x)) && e.oracle_fail.is_none() {
+                    e.oracle_fail = Some(format!("under concurrent use string({}) returned {:?}, the instant is {}", x, v, expected_rfc3339(*x)));
+                }
+            }
+            Some(e)
+        }
+        "time.real" => {
+            // the real clock (no override): every reading of dtn_time_now() lies between two readings of the system
+            // clock taken just before and just after it, minus the year-2000 offset
+            let ms: u64 = t.get(1)?.parse().ok()?;
+            bp7::verif_hooks::set_clock_ms(None);
+            let sys = || std::time::SystemTime::now().duration_since(std::time::UNIX_EPOCH).map(|d| d.as_millis() as u64).unwrap_or(0);
+            let bad: Vec<String> = std::thread::scope(|sc| {
+                let hs: Vec<_> = (0..8).map(|_| sc.spawn(move || {
+                    let start = std::time::Instant::now();
+                    while (start.elapsed().as_millis() as u64) < ms {
+                        for _ in 0..64 {
+                            let before = sys(); let v = bp7::dtn_time_now(); let after = sys();
+                            if before <= after && (v < before - MS2K || v > after - MS2K) {
+                                return Some(format!("dtn_time_now() = {} but the clock read {} just before and {} just after (minus the epoch offset)", v, before - MS2K, after - MS2K));
+                            }
+                        }
+                    }
+                    None })).collect();
+                hs.into_iter().filter_map(|h| h.join().ok().flatten()).collect() });
+            let mut e = Exec::new("ok".into());
+            if let Some(b) = bad.first() { e.oracle_fail = Some(b.clone()); }
+            Some(e)
+        }
         "time.now" => {
             let c: u64 = t.get(1)?.parse().ok()?;
             bp7::verif_hooks::set_clock_ms(Some(c));
@@ -1014,4 +1055,13 @@ fn gen_c17(rng: &mut Rng, ctx: &mut Ctx, rep: &mut Report, emit: Emit) {
             _ => emit(ctx, rep, format!("ts.string {} {}", t, rng.u64b())) }
     }
     for _ in 0..ctx.n(500, 10_000) { let c = MS2K + rng.u64b() / 2; emit(ctx, rep, format!("time.now {}", c)); }
+    // concurrent formatting: neighbouring times, the same second, far apart, around the formatting boundary
+    for _ in 0..ctx.n(40, 2_000) {
+        let base = match rng.below(3) { 0 => rng.below(252_455_616_000_000), 1 => rng.below(4_102_444_800_000), _ => 252_455_615_999_000 + rng.below(2_000) };
+        let k = 2 + rng.below(7);
+        let ts: Vec<String> = (0..k).map(|i| match rng.below(4) { 0 => base, 1 => base ^ (1 << rng.below(20)), 2 => base.wrapping_add(i * 1000), _ => rng.below(252_455_616_000_000) }.to_string()).collect();
+        emit(ctx, rep, format!("time.mt {}", ts.join(" ")));
+    }
+    // the real clock across at least two changes of the second
+    emit(ctx, rep, format!("time.real {}", ctx.n(2_200, 12_000)));
 }
